@@ -2514,17 +2514,18 @@ impl BuiltinCosts {
                     .cost(args[0].to_ex_mem(), args[1].to_ex_mem()),
             },
             DefaultFunction::WriteBits => {
-                let list = args[1].unwrap_list().unwrap();
+                // an ill-typed second argument is rejected by the builtin itself, right after costing
+                let list_len = args[1].unwrap_list().map(|l| l.1.len()).unwrap_or(0);
 
                 ExBudget {
                     mem: self.write_bits.mem.cost(
                         args[0].to_ex_mem(),
-                        list.1.len() as i64,
+                        list_len as i64,
                         args[2].to_ex_mem(),
                     ),
                     cpu: self.write_bits.cpu.cost(
                         args[0].to_ex_mem(),
-                        list.1.len() as i64,
+                        list_len as i64,
                         args[2].to_ex_mem(),
                     ),
                 }
